@@ -1,7 +1,7 @@
 from .base import *
 
 ID = 'C14'
-THEOREMS = ['C14_same', 'C14_opposite', 'C14_path_symmetric', 'C14_general_history', 'C14_general_upper', 'C14_general_bounds', 'C14_new_blade_upper', 'C14_upper_inhabited', 'C14_general_commutes']
+THEOREMS = ['C14_same', 'C14_opposite', 'C14_path_symmetric', 'C14_general_history', 'C14_general_upper', 'C14_general_bounds', 'C14_new_blade_upper', 'C14_upper_inhabited', 'C14_general_commutes', 'C14_grade_of_signs', 'C14_grade_from_direction']
 OWNED = {'GAdd'}
 RULE = ('pairs with identical angles, exactly opposite angles (built with negate/dual/conjugate), and angles more than 1e-9 rad from both; magnitudes equal / within 1e-10 / ulps apart / different; blades to 2^40; '
         'a+b and b+a; running sums. non-trivial = sum differs from both operands')
@@ -58,5 +58,5 @@ def generate(rng, tier):
     return cases
 
 LEVEL_TEXT = ('Kernel-checked theorems for every libm: identical angles -> the sum keeps that angle with magnitude fadd; exactly opposite -> |diff| < 1e-10 gives zero magnitude at new_with_blade(blade a + blade b, 0), '
-              'otherwise the larger summand\'s angle is kept bit-for-bit; the opposite-test is symmetric so a+b and b+a take the same path. C14_general_history: on the general path the angle of the sum is canonical and carries at least blade a + blade b blades whenever the re-encoded total is finite and at most 2^42 (history is never lost). C14_general_upper / C14_general_bounds: the sum carries AT MOST one full turn (4 blades) more than blade a + blade b, and exactly one full turn only with a remainder below 2^-8 (the rounding of the re-encoding at totals up to 2^42; the predicate enforces 1e-10 + 8 ulp(blade*pi/2) on the cases of each run) - under the single explicit premise that atan2 returned a finite value in [-PI, PI] (monitored on every recorded call), for blade sums below 2^40; C14_new_blade_upper is the underlying fact about Angle::new (proved through a new upper bound on the lift of negative totals). C14_general_commutes: on the general path a+b and b+a carry bit-for-bit the same angle (every libm, every operand). The grade-from-direction rule follows from C06_cartesian within its tolerance; at the boundaries it is decided by predicates (S3).')
-LEVEL_NOTE = ('Partial. Trusted: Coq kernel + vm_compute; 4 standard-library axioms; hand-written model validated bit-for-bit each run with the recorded libm table.')
+              'otherwise the larger summand\'s angle is kept bit-for-bit; the opposite-test is symmetric so a+b and b+a take the same path. C14_general_history: on the general path the angle of the sum is canonical and carries at least blade a + blade b blades whenever the re-encoded total is finite and at most 2^42 (history is never lost). C14_general_upper / C14_general_bounds: the sum carries AT MOST one full turn (4 blades) more than blade a + blade b, and exactly one full turn only with a remainder below 2^-8 (the rounding of the re-encoding at totals up to 2^42; the predicate enforces 1e-10 + 8 ulp(blade*pi/2) on the cases of each run) - under the single explicit premise that atan2 returned a finite value in [-PI, PI] (monitored on every recorded call), for blade sums below 2^40; C14_new_blade_upper is the underlying fact about Angle::new (proved through a new upper bound on the lift of negative totals). C14_general_commutes: on the general path a+b and b+a carry bit-for-bit the same angle (every libm, every operand). C14_grade_from_direction: the grade of a+b IS the quadrant of the Cartesian sum V whenever V is further than the tolerance T of C06_cartesian from both axes (REAL pi, cos/sin/atan2 accuracy as explicit premises); within T of an axis it is decided by predicates (S3).')
+LEVEL_NOTE = ('Partial. Trusted: Coq kernel + vm_compute; 4 standard-library axioms; plus the primitive-integer axioms (PrimInt63.*, Uint63.*_spec) of the Interval tactic for the real-pi theorems; hand-written model validated bit-for-bit each run with the recorded libm table.')
